@@ -1092,7 +1092,9 @@ class VBatch(BatchBase):
                 # which may have to flush another batch while this flush is still in progress
                 for it in items:
                     it.set_value(IV(it.fid))
-                run.sync_call(0, run.prog["kinds"][self.kind - 1]["nest"])
+                kd_ = run.prog["kinds"][self.kind - 1]
+                if not kd_.get("nestself") or self.bid % 1000 == 1:       # nestself: only the first batch of the kind nests
+                    run.sync_call(0, kd_["nest"])
             elif mode == "spawn":
                 for it in items:
                     it.set_value(IV(it.fid))
